@@ -24,6 +24,14 @@
 //! `c17-forged-tag-accepted:<variant>`.  Stored values are presented in *every* truncation (empty value and
 //! values shorter than a tag included) under the key they were written for and under a key nothing was written for.
 //!
+//! As received: every record list reaches the tag functions through the real `Mutations::from_vec`, converted the way
+//! `vls-frontend/src/external_persist/lss.rs::get` converts a read reply before `check_hmac`; the list the tag is
+//! computed/checked over must be the list as received, in wire order with duplicates (`c17-reply-altered-before-check`),
+//! and the mutation set includes stale duplicates spliced in before/after the genuine record and re-orderings.
+//! The LSS client driver's list verifier `remove_and_check_hmacs` (copied verbatim by `translate/x_lss.py`) is driven
+//! with 2..4-entry lists of stored values where exactly one position is flipped / swapped with another entry / replaced
+//! by an older version's blob / truncated / emptied (`c17-forged-tag-accepted:stored-list-entry`).
+//!
 //! Statefulness: one long-lived `ExternalPersistHelper` per case is driven through read 1 / reply / read 2 / ...
 //! with an entropy source the harness controls (`hnew`, `hnonce E`, `hcheck T recs`); monitors: consecutive
 //! requests with different entropy must get different nonces (`c17-nonce-reused`), and a reply recorded under an
@@ -82,10 +90,48 @@ fn show_recs(rs: &[Rec]) -> String {
     rs.iter().map(|(k, v, x)| format!(" {} {} {}", hexs(k), v, hexs(x))).collect()
 }
 
-fn to_mutations(rs: &[Rec]) -> Option<Mutations> {
-    let mut m = Mutations::new();
+/// A record list as it arrives from the storage server / leaves the signer: `Vec<(String, Value)>` converted with the
+/// real `Mutations::from_vec` exactly as `vls-frontend/src/external_persist/lss.rs::get` does before `check_hmac`
+/// (`(k, (v.version as u64, v.value))`) — the production constructor (`CloudKVVStore::prepare`, the vlsd restore path
+/// and `begin_replication` build their lists with it too).  The tag must be computed and checked over the list AS
+/// RECEIVED: `altered` is set when the conversion (or one of the accessors the HMAC code reads it through) yields
+/// anything but the records in their wire order.
+fn to_mutations_checked(rs: &[Rec]) -> Option<(Mutations, Option<String>)> {
+    let mut wire: Vec<(String, Value)> = Vec::new();
     for (k, v, x) in rs {
-        m.add(String::from_utf8(k.clone()).ok()?, *v, x.clone());
+        wire.push((String::from_utf8(k.clone()).ok()?, Value { version: *v as i64, value: x.clone() }));
+    }
+    let want: Vec<(String, (u64, Vec<u8>))> = wire.iter().map(|(k, v)| (k.clone(), (v.version as u64, v.value.clone()))).collect();
+    let m = Mutations::from_vec(wire.into_iter().map(|(k, v)| (k, (v.version as u64, v.value))).collect());
+    let seen: Vec<(String, (u64, Vec<u8>))> = m.iter().cloned().collect();
+    let show = |l: &Vec<(String, (u64, Vec<u8>))>| l.iter().map(|(k, (v, x))| format!("{}@{}:{}", k, v, hexs(x))).collect::<Vec<_>>().join(",");
+    let altered = if seen != want || m.inner() != &want || m.len() != want.len() {
+        Some(format!("received [{}] but the list handed to the tag functions is [{}]", show(&want), show(&seen)))
+    } else {
+        None
+    };
+    // the incremental constructor must describe the same list
+    let mut m2 = Mutations::new();
+    for (k, (v, x)) in &want {
+        m2.add(k.clone(), *v, x.clone());
+    }
+    let altered = altered.or_else(|| if m2.inner() != &want { Some(format!("Mutations::add builds [{}] from [{}]", show(m2.inner()), show(&want))) } else { None });
+    Some((m, altered))
+}
+
+thread_local! {
+    static ALTERED: std::cell::RefCell<Option<String>> = std::cell::RefCell::new(None);
+}
+
+/// for the generator (does not record anything)
+fn gen_mutations(rs: &[Rec]) -> Option<Mutations> {
+    to_mutations_checked(rs).map(|x| x.0)
+}
+
+fn to_mutations(rs: &[Rec]) -> Option<Mutations> {
+    let (m, altered) = to_mutations_checked(rs)?;
+    if let Some(a) = altered {
+        ALTERED.with(|c| { let mut c = c.borrow_mut(); if c.is_none() { *c = Some(a); } });
     }
     Some(m)
 }
@@ -318,6 +364,58 @@ fn exec_line(line: &str, i: usize, mon: &mut Monitor, hs: &mut HState, co: &mut 
             check_produced(i, "lss compute_shared_hmac", &tag, &ref_shared_tag(&s, &n, &rs), format!("nonce {} records[{}]", hexs(&n), show_recs(&rs)), &mut co.violations);
             mon.shared_input(i, &s, &n, &rs, &tag, &mut co.violations);
             hexs(&tag)
+        }
+        // implementation only: the LSS client driver's `remove_and_check_hmacs` over a list of stored values as a get
+        // reply / a put-conflict reply carries them.  `vals S (K V STORED)*` with STORED = bytes as stored (cipher layer on)
+        "vals" => {
+            let s = unhex(t[1]);
+            let mut kvs: Vec<(String, Value)> = Vec::new();
+            let mut presented: Vec<(Vec<u8>, u64, Vec<u8>)> = Vec::new();
+            let mut j = 2;
+            while j + 3 <= t.len() {
+                let (k, v, st) = (unhex(t[j]), t[j + 1].parse::<u64>().expect("version"), unhex(t[j + 2]));
+                match String::from_utf8(k.clone()) { Ok(ks) => kvs.push((ks, Value { version: v as i64, value: st.clone() })), Err(_) => return "bad-key".into() }
+                presented.push((k, v, st));
+                j += 3;
+            }
+            // reference verdict per position: remove the cipher layer with the real crypt_value, then the stored bytes
+            // must be exactly content ‖ full tag of (key, version, content)
+            let genuine: Vec<Option<Vec<u8>>> = presented.iter().map(|(k, v, st)| {
+                let mut plain = st.clone();
+                lssu::crypt_value(&s, std::str::from_utf8(k).unwrap(), *v as i64, &mut plain);
+                if plain.len() < 32 { return None; }
+                let content = plain[..plain.len() - 32].to_vec();
+                if plain[plain.len() - 32..] == ref_value_tag(&s, &(k.clone(), *v, content.clone()))[..] { Some(content) } else { None }
+            }).collect();
+            match lss::driver::remove_and_check_hmacs(&s, &mut kvs) {
+                Ok(()) => {
+                    co.tags.insert("vals:ok".into());
+                    for (p, g) in genuine.iter().enumerate() {
+                        let returned = &kvs[p].1.value;
+                        if g.as_ref() != Some(returned) {
+                            co.violations.push(Violation {
+                                kind: "c17-forged-tag-accepted:stored-list-entry".into(),
+                                desc: format!("remove_and_check_hmacs accepted a list of {} stored values although entry {} (key {}, version {}) is not what was written for it; it is returned as {}",
+                                    presented.len(), p + 1, hexs(&presented[p].0), presented[p].1, hexs(returned)),
+                                at: i,
+                            });
+                            break;
+                        }
+                    }
+                    format!("ok {}", kvs.iter().map(|(_, v)| hexs(&v.value)).collect::<Vec<_>>().join(" "))
+                }
+                Err(e) => {
+                    co.tags.insert("vals:err".into());
+                    if genuine.iter().all(|g| g.is_some()) {
+                        co.violations.push(Violation {
+                            kind: "c17-genuine-value-refused".into(),
+                            desc: format!("remove_and_check_hmacs refused a list of {} genuine stored values ({:?})", presented.len(), e),
+                            at: i,
+                        });
+                    }
+                    "err".into()
+                }
+            }
         }
         // implementation only: ciphertext of prepare_value_for_put; the keystream must depend on key and version
         "encx" => {
@@ -571,6 +669,14 @@ fn mutate_recs(rng: &mut Rng, base: &[Rec]) -> Vec<(String, Vec<Rec>)> {
     { let mut r = base.to_vec(); r.pop(); out.push(("drop-last-record".into(), r)); }
     { let mut r = base.to_vec(); if r[i].2.pop().is_some() { out.push(("truncate-value".into(), r)); } }
     { let mut r = base.to_vec(); let d = r[i].clone(); r.insert(i, d); out.push(("duplicate-record".into(), r)); }
+    // a stale record for the same key (older version, other content) spliced in before / after the genuine one
+    { let mut r = base.to_vec(); let mut d = r[i].clone(); d.1 = d.1.wrapping_sub(1); d.2.push(0x5a); r.insert(i, d); out.push(("stale-duplicate-before".into(), r)); }
+    { let mut r = base.to_vec(); let mut d = r[i].clone(); d.1 = d.1.wrapping_sub(1); d.2.push(0x5a); r.insert(i + 1, d); out.push(("stale-duplicate-after".into(), r)); }
+    { let mut r = base.to_vec(); let mut d = r[i].clone(); d.1 = d.1.wrapping_sub(1); d.2.push(0x5a); r.insert(0, d); out.push(("stale-duplicate-first".into(), r)); }
+    // the same records in key order / reverse key order, and rotated
+    { let mut r = base.to_vec(); r.sort(); if r != base { out.push(("key-sorted".into(), r)); } }
+    { let mut r = base.to_vec(); r.sort(); r.reverse(); if r != base { out.push(("key-sorted-reverse".into(), r)); } }
+    if n > 2 { let mut r = base.to_vec(); r.rotate_left(1); out.push(("rotate".into(), r)); }
     // merge record i+1 into the value of record i (F10)
     if n > 1 && i + 1 < n {
         let mut r = base.to_vec();
@@ -669,7 +775,7 @@ impl Group for C17Hmac {
         ]
     }
     fn model_line(&self, op: &str) -> Option<String> {
-        if op.starts_with("procx ") || op.starts_with("encx ") {
+        if op.starts_with("procx ") || op.starts_with("encx ") || op.starts_with("vals ") {
             None
         } else if let Some(rest) = op.strip_prefix("lshared ") {
             Some(format!("shared {}", rest))
@@ -688,7 +794,7 @@ impl Group for C17Hmac {
             let cnt = rng.range(1, 4) as usize;
             let mut base: Vec<Rec> = (0..cnt).map(|_| (ascii_key(rng), rand_version(rng), rand_value(rng))).collect();
             if rng.chance(1, 3) && cnt > 1 { base[1].2 = { let mut v = rand_value(rng); v.extend(rng.bytes(10)); v }; base[0].2 = { let mut v = b"abc".to_vec(); v.extend(be(rng.below(5))); v.extend(rng.bytes(3)); v }; }
-            let m = to_mutations(&base).unwrap();
+            let m = gen_mutations(&base).unwrap();
             let tag = compute_shared_hmac(&secret, &nonce, &m).to_vec();
             ops.push(format!("shared {} {}{}", s, n, show_recs(&base)));
             ops.push(format!("lshared {} {}{}", s, n, show_recs(&base)));
@@ -747,7 +853,7 @@ impl Group for C17Hmac {
                     ops.push(format!("hnonce {}", hexs(&e)));
                     let recs_r: Vec<Rec> = if rng.chance(1, 2) { base.clone() } else {
                         (0..rng.range(1, 3)).map(|_| (ascii_key(rng), rand_version(rng), rand_value(rng))).collect() };
-                    let mr = to_mutations(&recs_r).unwrap();
+                    let mr = gen_mutations(&recs_r).unwrap();
                     let tag_r = compute_shared_hmac(&secret, &e, &mr).to_vec();
                     // replies recorded for earlier reads, replayed now (same and other records)
                     for (t0, r0) in recorded.iter() {
@@ -770,7 +876,7 @@ impl Group for C17Hmac {
                     ops.push(format!("check {} {} {}{}", s, n, hexs(&tag), show_recs(&r)));
                 }
                 // the correct tag of the mutated list presented for the original one, and truncated for itself
-                if let Some(mr) = to_mutations(&r) {
+                if let Some(mr) = gen_mutations(&r) {
                     let tr = compute_shared_hmac(&secret, &nonce, &mr).to_vec();
                     if rng.chance(1, 2) {
                         ops.push(format!("check {} {} {}{}", s, n, hexs(&tr), show_recs(&base)));
@@ -813,6 +919,36 @@ impl Group for C17Hmac {
                 ops.push(format!("procx {} {} {} {} {} {} -", s, hexs(&k), v, hexs(&x), hexs(&ka), v));
                 // and the other way round: written under the longer key, read under the shorter one
                 ops.push(format!("procx {} {} {} {} {} {} -", s, hexs(&ka), v, hexs(&x), hexs(&k), v));
+            }
+            // lists of stored values through the client driver's remove_and_check_hmacs: genuine, and with exactly one
+            // position (first / middle / last) tampered: bit flip, blob swapped in from another key of the list, the
+            // blob of an older version of the same key replayed, truncated, emptied
+            {
+                let cnt = rng.range(2, 4) as usize;
+                let mut recs: Vec<(Vec<u8>, u64, Vec<u8>)> = vec![(k.clone(), v, x.clone())];
+                while recs.len() < cnt {
+                    let kk = { let mut q = ascii_key(rng); q.push(b'a' + recs.len() as u8); q };
+                    recs.push((kk, rand_version(rng), rand_value(rng)));
+                }
+                let store = |k: &Vec<u8>, v: u64, x: &Vec<u8>| -> Vec<u8> {
+                    let mut val = Value { version: v as i64, value: x.clone() };
+                    lssu::prepare_value_for_put(&secret, std::str::from_utf8(k).unwrap(), &mut val);
+                    val.value
+                };
+                let blobs: Vec<Vec<u8>> = recs.iter().map(|(k, v, x)| store(k, *v, x)).collect();
+                let line = |bl: &Vec<Vec<u8>>| -> String {
+                    let mut l = format!("vals {}", s);
+                    for (j, (k, v, _)) in recs.iter().enumerate() { l += &format!(" {} {} {}", hexs(k), v, hexs(&bl[j])); }
+                    l
+                };
+                ops.push(line(&blobs));
+                for p in 0..cnt {
+                    { let mut b = blobs.clone(); let l = b[p].len(); let q = rng.below(l as u64) as usize; b[p][q] ^= 1 << rng.below(8); ops.push(line(&b)); }
+                    { let mut b = blobs.clone(); let q = (p + 1) % cnt; b[p] = blobs[q].clone(); ops.push(line(&b)); }
+                    { let mut b = blobs.clone(); let mut older = recs[p].2.clone(); older.push(0x33); b[p] = store(&recs[p].0, recs[p].1.wrapping_sub(1), &older); ops.push(line(&b)); }
+                    if rng.chance(1, 2) { let mut b = blobs.clone(); let l = b[p].len(); b[p].truncate(l - 1 - rng.below(l as u64 - 1) as usize); ops.push(line(&b)); }
+                    if rng.chance(1, 2) { let mut b = blobs.clone(); b[p] = vec![]; ops.push(line(&b)); }
+                }
             }
             // the cipher layer: the same 16-byte content under this key/version, another key, another version
             {
@@ -899,13 +1035,14 @@ impl Group for C17Hmac {
         let mut co = CaseOut::default();
         let mut mon = Monitor::default();
         let mut hs = HState::default();
+        ALTERED.with(|c| *c.borrow_mut() = None);
         for (i, line) in ops.iter().enumerate() {
             let o = match std::panic::catch_unwind(std::panic::AssertUnwindSafe(|| exec_line(line, i, &mut mon, &mut hs, &mut co))) {
                 Ok(o) => o,
                 Err(_) => {
                     // a verifying entry point must answer accept/refuse for any bytes an outsider can supply
                     let opn = line.split(' ').next().unwrap_or("");
-                    if matches!(opn, "check" | "hcheck" | "proc" | "procx") {
+                    if matches!(opn, "check" | "hcheck" | "proc" | "procx" | "vals") {
                         co.violations.push(Violation {
                             kind: "c17-verifier-panicked".into(),
                             desc: format!("`{}` panicked instead of returning a verdict", opn),
@@ -915,6 +1052,13 @@ impl Group for C17Hmac {
                     "panic".to_string()
                 }
             };
+            if let Some(a) = ALTERED.with(|c| c.borrow_mut().take()) {
+                co.violations.push(Violation {
+                    kind: "c17-reply-altered-before-check".into(),
+                    desc: format!("`{}`: {} — the tag is not computed/checked over the list as received", line.split(' ').next().unwrap_or(""), a),
+                    at: i,
+                });
+            }
             co.tags.insert(format!("op:{}", line.split(' ').next().unwrap_or("")));
             co.out.push(o);
         }
